@@ -486,11 +486,11 @@ var reDotExponent = regexp.MustCompile(`[0-9]\.[eE][-+]?[0-9]`)
 
 func matchKnown(c Case, err error) string {
 	// more than 19 digits: strconv.ParseFloat of the dependency can be off by a factor of ten
-	if err != nil && reLongMantissa.MatchString(c.Src) && (strings.Contains(err.Error(), "geometry changed") || strings.Contains(err.Error(), "<path d>")) {
+	if err != nil && reLongMantissa.MatchString(c.Src) && (strings.Contains(err.Error(), "geometry changed") || strings.Contains(err.Error(), "<path d>") || strings.Contains(err.Error(), "is invalid")) {
 		return "C05-long-mantissa-parsefloat"
 	}
 	// 1.e0: digits, dot, exponent - a number of the path grammar that the lexer of the dependency splits after the dot
-	if err != nil && reDotExponent.MatchString(c.Src) && (strings.Contains(err.Error(), "geometry changed") || strings.Contains(err.Error(), "<path d>") || strings.Contains(err.Error(), "not valid")) {
+	if err != nil && reDotExponent.MatchString(c.Src) && (strings.Contains(err.Error(), "geometry changed") || strings.Contains(err.Error(), "<path d>") || strings.Contains(err.Error(), "not valid") || strings.Contains(err.Error(), "is invalid")) {
 		return "C05-number-dot-exponent"
 	}
 	if err != nil && reSmoothAfterCurve.MatchString(c.Src) && (strings.Contains(err.Error(), "geometry changed") || strings.Contains(err.Error(), "<path d>")) {
